@@ -1,7 +1,7 @@
 import numpy as np
 from .. import common, kernels as K, regen
 
-BACKENDS = ("numba", "pyfunc", "numpy", "cuda")
+BACKENDS = ("numba", "pyfunc", "numpy", "numpy_chunk", "cuda")
 
 
 def oracle_case(ck, case, cross, Q, tagp="def"):
